@@ -297,8 +297,10 @@ CLAIMS = {
          "(receiver types x trait/method names, every applicable call form in one program): callee names read off the real Core/Mono/Lift dumps "
          "and the real goast must equal the model's at every site, and - model-free - the static call, the instance of the bounded function and "
          "the vtable wrapper must reach one declared Go function; ill-formed programs (dyn without impl, unsatisfied bound, duplicate or "
-         "ambiguous methods) must be rejected.",
-    design_ref="§5 C17, 'C17 — as built'",
+         "ambiguous methods) must be rejected. Widened: receivers that are trait objects of ANOTHER trait (impl B for dyn A, UFCS B::m(d)), "
+         "and an effect family - every call form of an effectful method in 21 value/statement/loop/branch/match positions - whose real Go ASTs "
+         "are run under Go.Sem: all forms of one (receiver, position) must print and return the same.",
+    design_ref="§5 C17, 'C17 — as built', 'C17 — widened'",
     note="'Same code runs' is identity of the Go function reached; equality of results additionally needs C07/C09 (no Go toolchain to execute). "
          "For receivers that are instances of generic types the dyn form is proved NOT to agree (dyn_generic_instance_mismatch) - known finding; "
          "trait bounds are not checked at calls of generic functions - known finding. Single-package programs only; the 16 source anchors of the "
